@@ -192,6 +192,16 @@ def run_verus_unit(name, tier, seed, extra_args=()):
             res['undecided'].append('resource limit: ' + d['msg'])
             if res['status'] == 'ok':
                 res['status'] = 'undecided'
+            # which function ran out of resources (for the seed retries: a function that is proved under another seed IS proved)
+            fn_ = None
+            for ln in ([d['line']] + d['lines'] if d['line'] else d['lines']):
+                for r in u.fns:
+                    if r['rendered'] == 'body' and r['unit_line'] <= ln <= r['unit_end_line']:
+                        fn_ = r['fn']
+                        break
+                if fn_:
+                    break
+            res.setdefault('rlimit', []).append({'fn': fn_, 'entry': res['undecided'][-1]})
             continue
         if not known:
             res['status'] = 'undecided'
@@ -370,21 +380,69 @@ def check_property(pid, tier, seed, reg, results_cache):
         # obligation under ANY seed is a proof of it; a failure that does not reproduce is solver instability, not a violation.
         if not os.environ.get('VERIF_NO_RETRY'):
             rfuts = {}
+            def has_result(r_):
+                return r_['status'] in ('ok', 'failed') or bool(r_.get('rlimit')) and r_.get('verified', 0) + r_.get('failed', 0) > 0
             for un in units:
                 r0 = results_cache[un]
-                if r0['status'] == 'ok' and r0['errors'] and not r0.get('retried'):
+                if (r0['errors'] or r0.get('rlimit')) and has_result(r0) and not r0.get('retried'):
                     for sd in (11, 12):
                         rfuts[(un, sd)] = ex.submit(run_verus_unit, un, tier, seed, ('--smt-option', 'smt.random_seed=%d' % sd))
+            retries = {}
             for (un, sd), f in rfuts.items():
-                rr = f.result()
+                retries.setdefault(un, []).append(f.result())
+            for un, rrs in retries.items():
                 r0 = results_cache[un]
                 r0['retried'] = True
-                if rr['status'] == 'ok':
-                    failing = {e['fn'] for e in rr['errors']}
-                    dropped = [e for e in r0['errors'] if e['fn'] not in failing]
-                    if dropped:
-                        r0['errors'] = [e for e in r0['errors'] if e['fn'] in failing]
-                        r0.setdefault('unstable', []).extend(sorted({str(e['fn']) for e in dropped}))
+                runs = [r0] + [rr for rr in rrs if has_result(rr)]
+                def not_proven(r_):
+                    return {e['fn'] for e in r_['errors']} | {x['fn'] for x in r_.get('rlimit', [])}
+                # a resource limit that cannot be attributed to a function leaves the unit undecided as it is
+                if any(None in not_proven(r_) for r_ in runs):
+                    continue
+                for fn in sorted(set().union(*[not_proven(r_) for r_ in runs]), key=str):
+                    if any(fn not in not_proven(r_) for r_ in runs):
+                        # proved under some seed: proved.  Its failures elsewhere are solver instability
+                        if any(e['fn'] == fn for e in r0['errors']) or any(x['fn'] == fn for x in r0.get('rlimit', [])):
+                            r0.setdefault('unstable', []).append(str(fn))
+                        r0['errors'] = [e for e in r0['errors'] if e['fn'] != fn]
+                        gone = [x['entry'] for x in r0.get('rlimit', []) if x['fn'] == fn]
+                        r0['undecided'] = [x for x in r0['undecided'] if x not in gone]
+                        r0['rlimit'] = [x for x in r0.get('rlimit', []) if x['fn'] != fn]
+                    elif len(runs) == 3:
+                        # proved under no seed.  With a definite failure under at least one of them the obligation is reported (with that
+                        # failure); running out of resources under all three stays undecided
+                        definite = [e for r_ in runs for e in r_['errors'] if e['fn'] == fn]
+                        if definite and not any(e['fn'] == fn for e in r0['errors']):
+                            first = [r_ for r_ in runs if any(e['fn'] == fn for e in r_['errors'])][0]
+                            r0['errors'].extend(e for e in first['errors'] if e['fn'] == fn)
+                        if definite:
+                            gone = [x['entry'] for x in r0.get('rlimit', []) if x['fn'] == fn]
+                            r0['undecided'] = [x for x in r0['undecided'] if x not in gone]
+                            r0['rlimit'] = [x for x in r0.get('rlimit', []) if x['fn'] != fn]
+                    else:
+                        # a retry gave no result at all: keep what the first run said about this function, but do not call it a violation
+                        # on the strength of one seed when it is only a resource limit
+                        pass
+                # functions that ran out of resources under all three seeds: one more run with six times the default resource limit.  Proved
+                # there: proved.  A definite failure there (and proved under no seed): reported with that failure.  Otherwise undecided
+                if r0.get('rlimit') and all(x['fn'] is not None for x in r0['rlimit']) and len(runs) == 3:
+                    rb = run_verus_unit(un, tier, seed, ('--rlimit', '60'))
+                    if has_result(rb):
+                        for fn in sorted({x['fn'] for x in r0['rlimit']}, key=str):
+                            if fn in {x['fn'] for x in rb.get('rlimit', [])}:
+                                continue
+                            berrs = [e for e in rb['errors'] if e['fn'] == fn]
+                            if berrs and not any(e['fn'] == fn for e in r0['errors']):
+                                r0['errors'].extend(berrs)
+                            gone = [x['entry'] for x in r0['rlimit'] if x['fn'] == fn]
+                            r0['undecided'] = [x for x in r0['undecided'] if x not in gone]
+                            r0['rlimit'] = [x for x in r0['rlimit'] if x['fn'] != fn]
+                if r0['undecided']:
+                    r0['status'] = 'undecided'
+                elif r0['errors']:
+                    r0['status'] = 'failed'
+                else:
+                    r0['status'] = 'ok'
         cfuts = {}
         for un in units:
             key = 'canary:' + un
